@@ -72,7 +72,7 @@ func checkC12(c *Ctx, r *Report) {
 	// ---- (2) selector
 	var sel *ssa.Function
 	for _, fn := range c.LibFuncs() {
-		if fn.Pkg == nil || fn.Pkg.Pkg.Path() != modPath || fn.Signature.Results().Len() != 2 {
+		if fn.Pkg == nil || !c.libFn(fn) || fn.Signature.Results().Len() != 2 {
 			continue
 		}
 		if isPtrTo(fn.Signature.Results().At(0).Type(), cs) {
@@ -744,7 +744,7 @@ func checkC12(c *Ctx, r *Report) {
 	ca := c.Named("pkg/ipmi", "ConfidentialityAlgorithm")
 	aa := c.Named("pkg/ipmi", "AuthenticationAlgorithm")
 	for _, fn := range c.LibFuncs() {
-		if fn.Signature.Recv() != nil || len(fn.Params) < 1 || fn.Pkg == nil || fn.Pkg.Pkg.Path() != modPath || fn.Signature.Results().Len() != 2 {
+		if fn.Signature.Recv() != nil || len(fn.Params) < 1 || fn.Pkg == nil || !c.libFn(fn) || fn.Signature.Results().Len() != 2 {
 			continue
 		}
 		t, _ := fn.Params[0].Type().(*types.Named)
@@ -788,7 +788,7 @@ func checkC12(c *Ctx, r *Report) {
 func (c *Ctx) cipherSuiteParser() *ssa.Function {
 	recT := c.Named("pkg/ipmi", "CipherSuiteRecord")
 	for _, fn := range c.LibFuncs() {
-		if fn.Pkg == nil || fn.Pkg.Pkg.Path() != modPath || fn.Parent() != nil || fn.Signature.Results().Len() != 2 || len(fn.Params) != 1 {
+		if fn.Pkg == nil || !c.libFn(fn) || fn.Parent() != nil || fn.Signature.Results().Len() != 2 || len(fn.Params) != 1 {
 			continue
 		}
 		if _, isSl := fn.Params[0].Type().(*types.Slice); !isSl {
